@@ -15,10 +15,10 @@ def prop(pid):
         cls.pid = pid; cls.statement = STATEMENTS[pid]; REG[pid] = cls(); return cls
     return deco
 TESTED_ONLY = {
- 'C01': ['the vertex-set reading (basis of exactly k+1 points, no two simplices sharing a basis) is proved for every history of in-contract operations (points, add by basis, deletions, restrict, renames) and for flag / Vietoris-Rips results; after add by faces with caller-supplied faces, subdivide, bulk add, compose: proved only for complexes on <= 4 points (kernel sweep); beyond that by the wf oracle after every step of every history. maxOrder = largest populated order is proved for every history of public operations'],
+ 'C01': ['the vertex-set reading (basis of exactly k+1 points, no two simplices sharing a basis) is proved for every history of in-contract operations (points, add by basis, deletions, restrict, renames) and for flag / Vietoris-Rips results; after add by faces with caller-supplied faces, bulk add under a renaming: proved only (subdivide, compose, bulk add without renaming, copy into a target: proved) for complexes on <= 4 points (kernel sweep); beyond that by the wf oracle after every step of every history. maxOrder = largest populated order is proved for every history of public operations'],
  'C02': ['subdivide beyond 4 points; bulk add under a renaming; which simplex receives the attributes given to addSimplexWithBasis (oracle c02-pre/post); the vertex-set effects of add by basis, delete, delete by basis and restrict are proved for every complex that meets the vertex-set reading, the attribute frame of additions and deletions for every history'],
  'C03': ['d.d = 0 and boundary() of chains on complexes built out of contract (views oracle after every step); shapes, entries, cofaces = inverse of faces and basis = points of the closure are proved for every history, d.d = 0, boundary() = mod-2 sum and boundary of a boundary = [] for every complex that meets the vertex-set reading'],
- 'C04': ['lookup by faces beyond 4 points; disjoint() beyond 3 points and for 4-tuples; returned names having the Python type they were created with (oracle c04); subsets / supersets / 2^(k+1)-1 members / lookup by basis are proved for every complex that meets the vertex-set reading, sortedness by order and the exclude_self / reverse variants of closureOf and partOf for every history'],
+ 'C04': ['returned names having the Python type they were created with (oracle c04); subsets / supersets / 2^(k+1)-1 members / lookup by basis / lookup by faces / disjoint() are proved for every complex that meets the vertex-set reading, sortedness by order and the exclude_self / reverse variants of closureOf and partOf for every history'],
  'C05': ['continuation after a rejected call for requests with generated names / fresh dictionaries (twin-history oracle, up to generated names); atomicity of addSimplexWithBasis / relabel beyond the cases proved; a classification-complete invalid <=> rejected'],
  'C06': ["that decoding / deleting / re-inserting yields the same family in a concrete run (oracle c06-inv); the rank formula, orders above the maximum, Euler-Poincare, independence of names, betti 0 = number of connected components, and that the Betti numbers depend only on the family of vertex sets (same family => same Betti numbers; a copy has its source's) are proved"],
  'C07': ['nothing of the statement is left to testing alone: shape and rank of the normal form, count, cycles (on the matrix and through boundary()) and independence are proved on the model; the oracle c07 ties them to the code'],
@@ -26,14 +26,14 @@ TESTED_ONLY = {
  'C09': ['contents and freshness of Filtration.copy; follow-up mutation scripts on either side (oracles fresh, same-content, unchanged, deepcopy-filt); names / orders / faces / attribute values of copy(), that copy() never fails, and freshness of copy / decode / flagComplex / vietorisRipsComplex / compose results are proved; contents of flag / VR results are C11 / C12'],
  'C10': ['nothing of the statement is left to testing alone: the six operators, the order laws, copy == source, delete => strictly smaller and differ => never equal are proved on the model; the oracle c10 ties them to the code on mutated copies'],
  'C11': ['attributes of K in the flag complex; that a concrete sequence "flag complex, add edges, grow" meets the hypotheses of the grow = rebuild theorem is tested (oracles c11, samefam); flag complex = clique complex in both directions, idempotence, soundness of grow, grow = rebuild (for new simplices without other cofaces on a complex that is flag-complete apart from them) are proved for every complex that meets the vertex-set reading'],
- 'C12': ['which pairs are close: the binary64 test distance <= eps is compared bit for bit with the code on every run and handed to the model as a list; its monotonicity in eps on doubles is not proved (oracle c12 with its own metric, subfam). The family for every set of close pairs, monotonicity in the set of pairs, no pair => just the points, all pairs => full simplex are proved'],
+ 'C12': ['which pairs are close: the binary64 test distance <= eps is compared bit for bit with the code on every run and handed to the model as a list; its monotonicity in eps on doubles is proved (FloatAxioms.leb_spec); symmetry of the distance on doubles is not (oracle c12 with its own metric, subfam). The family for every set of close pairs, monotonicity in the set of pairs, no pair => just the points, all pairs => full simplex are proved'],
  'C13': ['deletion of the whole star across indices, complexes() as a whole, addSimplexWithBasis and copy() on a filtration (shadow-log oracle c13); monotone views, births, views closed under faces, closed snapshots and the indices() / simplicesAddedAtIndex bookkeeping are proved for every history'],
- 'C14': ['per-order counts as lists, Betti numbers of the index-aware queries against the snapshot (oracle c14 per query; membership / order / faces of visible simplices, the listings per order and as a whole, the total count and the Euler characteristic are proved for every filtration history); setMinimumIndex / setMaximumIndex'],
- 'C15': ["relabelDisjointFrom renaming only collisions, addSimplicesFrom under a renaming being an isomorphic copy (oracle c15-pre/post); names-only, structure carried, Betti invariance, the renaming being the user's (m.get(s, s) for a dict), the returned mapping listing exactly the changed names, the attribute dictionaries following the names, and the at-most-once call are proved"],
+ 'C14': ['Betti numbers of the index-aware queries against the snapshot (oracle c14 per query; membership / order / faces of visible simplices, the listings per order and as a whole, the total count, the per-order counts and the Euler characteristic are proved for every filtration history); setMinimumIndex / setMaximumIndex'],
+ 'C15': ["relabelDisjointFrom renaming only collisions, attribute contents of addSimplicesFrom under a renaming (oracle c15-pre/post); names-only, structure carried, Betti invariance, the renaming being the user's (m.get(s, s) for a dict), the returned mapping listing exactly the changed names, the attribute dictionaries following the names, the structure of a bulk add under a renaming, and the at-most-once call are proved"],
  'C16': ['target complexes (oracle c16); result = union, accepted => compatible and compatible => accepted (for complexes that meet the vertex-set reading), and the attribute values of the result (merge = update with the second operand, new cells only) are proved'],
  'C17': ['the JSON text layer (json.dumps / loads, files), name types, nested / unicode attribute values, wrapping in other JSON, filtrations (oracle c17); the structural round trip and acceptance of every encoding by the decoder are proved at the level of the encoded records'],
- 'C18': ['Betti numbers beyond k = 6; skeleton / ring / lattice on arbitrary targets beyond 3 points; requested name / attributes of the top simplex on non-empty targets (oracle c18); k_simplex / k_void in vertex sets with the frame clause and their binomial counts are proved for every k and every target that meets the vertex-set reading'],
- 'C19': ['input unchanged, complexes built out of contract, that a composition of name-disjoint complexes is a disjoint union with the attribute values (oracle c19); the level-set and simplex-wise formulas with the default value and additivity over disjoint unions are proved for every complex that meets the vertex-set reading, Euler characteristic = alternating Betti sum for every history'],
+ 'C18': ['Betti numbers beyond k = 6; the lattice beyond 6 x 6; requested name / attributes of the top simplex on non-empty targets (oracle c18); k_simplex / k_void in vertex sets with the frame clause and their binomial counts are proved for every k and every target that meets the vertex-set reading, k_skeleton / ring (what they add, and the frame) for every k / n and every target'],
+ 'C19': ['input unchanged, complexes built out of contract (oracle c19); the level-set and simplex-wise formulas with the default value additivity over disjoint unions and over the composition of name-disjoint complexes are proved for every complex that meets the vertex-set reading, Euler characteristic = alternating Betti sum for every history'],
  'C20': ['positionsOf / len / in against the complex (oracle c20); Euclidean distance and lattice positions on arbitrary doubles: the binary64 model is compared bit for bit with the code on every run, not proved about real numbers'],
 }
 
